@@ -50,7 +50,7 @@ pub fn stub_transform_ls(block: u128, table: &Table) -> u128 {
 
 // ---------------------------------------------------------------------------------------------------------- leaves
 
-//@ harness name=kuz_soft_leaf_consts prop=C07,C20 tier=quick bits=16 est=45 desc="L: P[x] == pi(x), P_INV[x] == pi^-1(x), pi^-1(pi(x)) == x == pi(pi^-1(x)) for all octets x; KEYGEN[i] == C_{i+1} = L(Vec128(i+1)) for symbolic i in 0..32 (field arithmetic of the oracle computed)"
+//@ harness name=kuz_soft_leaf_consts prop=C07,C20 tier=quick bits=16 est=46 desc="L: P[x] == pi(x), P_INV[x] == pi^-1(x), pi^-1(pi(x)) == x == pi(pi^-1(x)) for all octets x; KEYGEN[i] == C_{i+1} = L(Vec128(i+1)) for symbolic i in 0..32 (field arithmetic of the oracle computed)"
 verif_harness! {
     name: kuz_soft_leaf_consts,
     bytes: 2,
@@ -64,7 +64,7 @@ verif_harness! {
     }
 }
 
-//@ harness name=kuz_soft_leaf_sub_bytes prop=C07,C20 tier=quick bits=128 est=30 desc="L: sub_bytes(b, &P) == oracle S(b) and sub_bytes(b, &P_INV) == oracle S^-1(b) for all 2^128 b (u128 little-endian view)"
+//@ harness name=kuz_soft_leaf_sub_bytes prop=C07,C20 tier=quick bits=128 est=43 quick=C20 desc="L: sub_bytes(b, &P) == oracle S(b) and sub_bytes(b, &P_INV) == oracle S^-1(b) for all 2^128 b (u128 little-endian view)"
 verif_harness! {
     name: kuz_soft_leaf_sub_bytes,
     bytes: 16,
@@ -98,9 +98,39 @@ verif_harness! {
     }
 }
 
+/// transform on the words with one arbitrary octet v at position p (p = lo .. hi in turn) and zero elsewhere, one table:
+/// == oracle L(S(.)) resp. L^-1(S^-1(.)).  Fifteen of the sixteen reads of each call have a constant index (folded by the
+/// symbolic execution), one is symbolic.
+fn tf_pos(inp: &[u8], dec: bool, lo: usize, hi: usize) -> Option<bool> {
+    let v = inp[0];
+    let mut p = lo;
+    while p < hi {
+        let mut b = [0u8; 16];
+        b[p] = v;
+        if dec {
+            vcheck!(transform(u128::from_le_bytes(b), &DEC_TABLE).to_le_bytes() == r::l_inv(&r::s_inv(&b)));
+        } else {
+            vcheck!(transform(u128::from_le_bytes(b), &ENC_TABLE).to_le_bytes() == r::ls(&b));
+        }
+        p += 1;
+    }
+    Some(true)
+}
+
+//@ harness name=kuz_soft_leaf_tf_one prop=C07,C20 tier=thorough bits=8 est=300 desc="L: transform(b, &ENC_TABLE) == oracle L(S(b)) for b = arbitrary octet at position 9, zero elsewhere, and transform(b, &DEC_TABLE) == oracle L^-1(S^-1(b)) for b = arbitrary octet at position 6, zero elsewhere (table, row, lane, XOR accumulation of the real loop; one position per table)"
+verif_harness! {
+    name: kuz_soft_leaf_tf_one,
+    bytes: 1,
+    unwind: 20,
+    prop: |inp| {
+        vcheck!(tf_pos(inp, false, 9, 10) == Some(true));
+        tf_pos(inp, true, 6, 7)
+    }
+}
+
 // ---------------------------------------------------------------------------------------------------------- key schedule
 
-//@ harness name=kuz_soft_keys prop=C07,C20 tier=quick bits=256 stub=1 est=120 desc="W: round keys of KuznyechikEnc::new(key) (big_soft expand_enc_keys) == oracle K1..K10 (Feistel key schedule with the computed C_1..C_32) for all 2^256 keys; transform(., &ENC_TABLE) and the oracle's L S are ONE uninterpreted function (32 applications per side)"
+//@ harness name=kuz_soft_keys prop=C07,C20 tier=quick bits=256 stub=1 est=54 quick=C20 desc="W: round keys of KuznyechikEnc::new(key) (big_soft expand_enc_keys) == oracle K1..K10 (Feistel key schedule with the computed C_1..C_32) for all 2^256 keys; transform(., &ENC_TABLE) and the oracle's L S are ONE uninterpreted function (32 applications per side)"
 verif_harness! {
     name: kuz_soft_keys,
     bytes: 32,
@@ -113,7 +143,7 @@ verif_harness! {
 // transform / sub_bytes := S, L uninterpreted inverse pairs (kz_common); arbitrary round keys (a superset of the key schedule's
 // outputs): with kuz_soft_keys this is conformance for all keys.
 
-//@ harness name=kuz_soft_enc_rk prop=C07,C03,C12,C20 tier=quick bits=1408 stub=1 est=60 desc="W: KuznyechikEnc over arbitrary round keys: encrypt_block == oracle E (9 LSX rounds + X), all round keys, all blocks"
+//@ harness name=kuz_soft_enc_rk prop=C07,C03,C12,C20 tier=quick bits=1408 stub=1 est=25 quick=C03 desc="W: KuznyechikEnc over arbitrary round keys: encrypt_block == oracle E (9 LSX rounds + X), all round keys, all blocks"
 verif_harness! {
     name: kuz_soft_enc_rk,
     bytes: 160 + 16,
@@ -137,7 +167,7 @@ verif_harness! {
     stubs: [(crate::big_soft::backends::transform, stub_transform), (crate::big_soft::backends::sub_bytes, stub_sub_bytes)],
     prop: |inp| { k::w_enc_rk(inp, Route::Val) }
 }
-//@ harness name=kuz_soft_enc_rk_ref prop=C12,C03,C20 tier=quick bits=1408 stub=1 est=60 desc="W: Kuznyechik::from(&enc) (by reference): encrypt_block == oracle E, all round keys, all blocks"
+//@ harness name=kuz_soft_enc_rk_ref prop=C12,C03,C20 tier=quick bits=1408 stub=1 est=94 desc="W: Kuznyechik::from(&enc) (by reference): encrypt_block == oracle E, all round keys, all blocks"
 verif_harness! {
     name: kuz_soft_enc_rk_ref,
     bytes: 160 + 16,
@@ -154,7 +184,7 @@ verif_harness! {
     prop: |inp| { k::w_enc_rk(inp, Route::RefClone) }
 }
 
-//@ harness name=kuz_soft_par3 prop=C04,C20 tier=quick bits=1664 stub=1 est=100 desc="W: KuznyechikEnc::encrypt_blocks on 3 blocks (exactly one 3-wide encrypt_par_blocks batch of the big_soft back end) == three encrypt_block calls on the same instance, all three output blocks; arbitrary round keys, all block contents"
+//@ harness name=kuz_soft_par3 prop=C04,C20 tier=quick bits=1664 stub=1 est=219 desc="W: KuznyechikEnc::encrypt_blocks on 3 blocks (exactly one 3-wide encrypt_par_blocks batch of the big_soft back end) == three encrypt_block calls on the same instance, all three output blocks; arbitrary round keys, all block contents"
 verif_harness! {
     name: kuz_soft_par3,
     bytes: 160 + 48,
@@ -176,7 +206,7 @@ verif_harness! {
 // conversions); the result must be the standard's D over the encryption round keys.  Assumed: the eight instances of the
 // linearity of L^-1 that the pre-transformed keys rely on (kz_common::lin_instances, lemma kuz_lin_linv).
 
-//@ harness name=kuz_soft_dec_rk_val prop=C07,C03,C12,C20 tier=quick bits=1408 stub=1 est=250 desc="W: KuznyechikDec::from(enc) (by value, real inv_enc_keys) over arbitrary encryption round keys: decrypt_block == oracle D = X[K1] S^-1 L^-1 X[K2] ... S^-1 L^-1 X[K10], all round keys, all blocks (linearity instances of L^-1 assumed, lemma kuz_lin_linv)"
+//@ harness name=kuz_soft_dec_rk_val prop=C07,C03,C12,C20 tier=quick bits=1408 stub=1 est=163 quick=C03 desc="W: KuznyechikDec::from(enc) (by value, real inv_enc_keys) over arbitrary encryption round keys: decrypt_block == oracle D = X[K1] S^-1 L^-1 X[K2] ... S^-1 L^-1 X[K10], all round keys, all blocks (linearity instances of L^-1 assumed, lemma kuz_lin_linv)"
 verif_harness! {
     name: kuz_soft_dec_rk_val,
     bytes: 160 + 16,
@@ -184,7 +214,7 @@ verif_harness! {
     stubs: [(crate::big_soft::backends::transform, stub_transform), (crate::big_soft::backends::sub_bytes, stub_sub_bytes)],
     prop: |inp| { k::w_dec_rk(inp, Route::Val, false, true) }
 }
-//@ harness name=kuz_soft_dec_rk_ref prop=C07,C03,C12,C20 tier=quick bits=1408 stub=1 est=250 desc="W: KuznyechikDec::from(&enc) (by reference): decrypt_block == oracle D, all round keys, all blocks (linearity instances of L^-1 assumed)"
+//@ harness name=kuz_soft_dec_rk_ref prop=C12,C07,C03,C20 tier=quick bits=1408 stub=1 est=168 desc="W: KuznyechikDec::from(&enc) (by reference): decrypt_block == oracle D, all round keys, all blocks (linearity instances of L^-1 assumed)"
 verif_harness! {
     name: kuz_soft_dec_rk_ref,
     bytes: 160 + 16,
@@ -208,7 +238,7 @@ verif_harness! {
     stubs: [(crate::big_soft::backends::transform, stub_transform), (crate::big_soft::backends::sub_bytes, stub_sub_bytes)],
     prop: |inp| { k::w_dec_rk(inp, Route::Val, true, true) }
 }
-//@ harness name=kuz_soft_both_dec_rk_ref prop=C07,C03,C12,C20 tier=quick bits=1408 stub=1 est=250 desc="W: Kuznyechik::from(&enc) (by reference): decrypt_block == oracle D, all round keys, all blocks (linearity instances of L^-1 assumed)"
+//@ harness name=kuz_soft_both_dec_rk_ref prop=C12,C07,C03,C20 tier=quick bits=1408 stub=1 est=171 desc="W: Kuznyechik::from(&enc) (by reference): decrypt_block == oracle D, all round keys, all blocks (linearity instances of L^-1 assumed)"
 verif_harness! {
     name: kuz_soft_both_dec_rk_ref,
     bytes: 160 + 16,
@@ -235,7 +265,7 @@ verif_harness! {
     stubs: [(crate::big_soft::backends::transform, stub_transform), (crate::big_soft::backends::sub_bytes, stub_sub_bytes)],
     prop: |inp| { k::w_roundtrip_rk(inp, 0, true) }
 }
-//@ harness name=kuz_soft_rt_ed prop=C01,C20 tier=quick bits=1408 stub=1 est=250 desc="W: Kuznyechik::from(&enc): dec(enc(b)) == b, arbitrary round keys, all blocks (S, L uninterpreted inverse pairs, linearity instances of L^-1 assumed)"
+//@ harness name=kuz_soft_rt_ed prop=C01,C20 tier=quick bits=1408 stub=1 est=192 desc="W: Kuznyechik::from(&enc): dec(enc(b)) == b, arbitrary round keys, all blocks (S, L uninterpreted inverse pairs, linearity instances of L^-1 assumed)"
 verif_harness! {
     name: kuz_soft_rt_ed,
     bytes: 160 + 16,
